@@ -358,7 +358,7 @@ theorem selectRoutes_append_slash (E : ReEnv) (routes : List Route)
 
 /-! ### compiled literals contain no `/` -/
 
-private theorem not_mem_of_mem_splitOn (a : Char) (s : Str) : ∀ l ∈ s.splitOn a, a ∉ l := by
+theorem not_mem_of_mem_splitOn (a : Char) (s : Str) : ∀ l ∈ s.splitOn a, a ∉ l := by
   induction s with
   | nil => simp
   | cons c s ih =>
@@ -385,7 +385,7 @@ private theorem not_mem_of_mem_splitOn (a : Char) (s : Str) : ∀ l ∈ s.splitO
           · exact ih h List.mem_cons_self hmem
         · exact ih l (List.mem_cons_of_mem _ hl)
 
-private theorem not_mem_of_mem_tokenize (p : Str) : ∀ l ∈ tokenize p, '/' ∉ l := by
+theorem not_mem_of_mem_tokenize (p : Str) : ∀ l ∈ tokenize p, '/' ∉ l := by
   unfold tokenize
   split
   · simp
